@@ -61,19 +61,33 @@ def fill_receivers(repo, cls, f):
                 for x in ast.walk(tgt):
                     if isinstance(x, ast.Name):
                         var_src.setdefault(x.id, set()).update(attrs)
-    # plain copies and selections propagate the source slots (`ret = sub`, `target = ret`, `x = a if c else b`)
+    # copies, selections, tuples of alternatives and loops over them propagate the source slots
+    # (`ret = sub`, `ret = (sub,)`, `x = a if c else b`, `for target in ret`)
     changed = True
     while changed:
         changed = False
         for n in walk_local_stmt(f.node):
+            pairs = []
             if isinstance(n, ast.Assign) and len(n.targets) == 1 and isinstance(n.targets[0], ast.Name):
                 v = n.value
-                parts = [v.body, v.orelse] if isinstance(v, ast.IfExp) else [v]
-                for pv in parts:
-                    if isinstance(pv, ast.Name) and pv.id in var_src:
-                        cur = var_src.setdefault(n.targets[0].id, set())
-                        if not var_src[pv.id] <= cur:
-                            cur |= var_src[pv.id]
+                if isinstance(v, ast.Call) and isinstance(v.func, ast.Attribute) and v.func.attr in ("copy", "zero"):
+                    continue
+                if isinstance(v, (ast.Name, ast.IfExp, ast.Tuple, ast.List)):
+                    pairs.append((n.targets[0], v))
+            elif isinstance(n, ast.For) and isinstance(n.iter, ast.Name):
+                pairs.append((n.target, n.iter))
+            for tgt, v in pairs:
+                src = set()
+                for x in ast.walk(v):
+                    if isinstance(x, ast.Name) and x.id in var_src:
+                        src |= var_src[x.id]
+                if not src:
+                    continue
+                for x in ast.walk(tgt):
+                    if isinstance(x, ast.Name):
+                        cur = var_src.setdefault(x.id, set())
+                        if not src <= cur:
+                            cur |= src
                             changed = True
     out = {}
     for n in walk_local_stmt(f.node):
